@@ -72,11 +72,18 @@ CLAIMED.update({
           "stop() issued before run() has reset its flag is outside the property. polling's notify/wait are real code.", "3/C11"),
 })
 
+CLAIMED.update({
+  "C19": ("dsim", "deterministic simulation in a strictly single-threaded worker process: Signals source under add/remove/set/drop histories with raise() at every point, mask and disposition oracles", "exploration",
+          "Counting handlers are installed for the universe {USR1, USR2, WINCH, URG} so that normal disposition is observable and never fatal; histories of Signals::new/add_signals/remove_signals/set_signals/disable/enable/remove/drop interleaved with raise() (configured or not, before or after a mask change) and dispatches; after every operation: pthread_sigmask(query) restricted to the universe equals the configured set (empty after drop), the handler counters equal what the model expects (a signal that stays configured across a change must never reach the handler, an unconfigured or de-configured one reaches it exactly once), every pending configured signal is in the MUST set and reaches the callback exactly once with the right number, pid and uid.",
+          "Standard signals coalesce (one pending instance per signal). One Signals source at a time. Real-time signals and multi-threaded masks are not explored.", "3/C19"),
+})
+
 NOT_APPLICABLE = {
   "C20": "pure function of its inputs (shift/mask arithmetic, a counter): no schedule, clock, fault or history for a simulator to control; exhaustive enumeration or proof would be the right tool, which is outside this technique family",
 }
 
-NOT_YET = {
+NOT_YET = {} 
+NOT_YET_OLD = {
   "C03": "thread-schedule simulator (shuttle) not finished yet; the single-threaded half runs inside the dsim engine but the deciding quantifier is schedules",
   "C04": "thread-schedule simulator (shuttle) not finished yet",
   "C08": "re-entrancy matrix harness not finished yet",
